@@ -55,6 +55,11 @@ class Field:
     card: str = "single"  # single | optional | repeated | map | oneof
     group: Optional[str] = None  # oneof name when card == 'oneof'
     key: Optional[str] = None  # key kind when card == 'map'
+    proto_name: Optional[str] = None  # name in the .proto / descriptor when it differs from the Python name
+
+    @property
+    def pname(self) -> str:
+        return self.proto_name or self.name
 
     @property
     def base(self) -> str:
@@ -266,17 +271,17 @@ def render_proto(schema: Schema) -> str:
                 for g in m.fields:
                     if g.card == "oneof" and g.group == f.group:
                         out.append(
-                            f"    {_proto_type(g.kind, schema.package)} {g.name} = {g.number};"
+                            f"    {_proto_type(g.kind, schema.package)} {g.pname} = {g.number};"
                         )
                 out.append("  }")
             elif f.card == "map":
-                out.append(f"  map<{f.key}, {t}> {f.name} = {f.number};")
+                out.append(f"  map<{f.key}, {t}> {f.pname} = {f.number};")
             elif f.card == "repeated":
-                out.append(f"  repeated {t} {f.name} = {f.number};")
+                out.append(f"  repeated {t} {f.pname} = {f.number};")
             elif f.card == "optional":
-                out.append(f"  optional {t} {f.name} = {f.number};")
+                out.append(f"  optional {t} {f.pname} = {f.number};")
             else:
-                out.append(f"  {t} {f.name} = {f.number};")
+                out.append(f"  {t} {f.pname} = {f.number};")
         out.append("}")
     return "\n".join(out) + "\n"
 
@@ -368,12 +373,12 @@ def to_file_descriptor_proto(schema: Schema, filename: Optional[str] = None):
                 md.oneof_decl.add().name = f.group
         for f in m.fields:
             fd = md.field.add()
-            fd.name = f.name
+            fd.name = f.pname
             fd.number = f.number
-            fd.json_name = _camel(f.name)
+            fd.json_name = _camel(f.pname)
             if f.card == "map":
                 entry = md.nested_type.add()
-                entry.name = _camel("_" + f.name) + "Entry"
+                entry.name = _camel("_" + f.pname) + "Entry"
                 entry.options.map_entry = True
                 k = entry.field.add()
                 k.name, k.number, k.label, k.type = "key", 1, F.LABEL_OPTIONAL, _fdp_type(f.key)
@@ -399,7 +404,7 @@ def to_file_descriptor_proto(schema: Schema, filename: Optional[str] = None):
             if f.card == "optional":
                 fd.proto3_optional = True
                 fd.oneof_index = len(md.oneof_decl)
-                md.oneof_decl.add().name = "_" + f.name
+                md.oneof_decl.add().name = "_" + f.pname
     return fdp
 
 
